@@ -134,6 +134,24 @@ pub fn answer(req: &str) -> String {
             Some(src) => asm_answer(&src),
             None => "BADREQ".into(),
         },
+        "asmx" => {
+            let mut it = rest.trim().splitn(2, ' ');
+            let a = it.next().and_then(dec);
+            let b = it.next().map(|x| x.trim().to_string()).unwrap_or_default();
+            match a {
+                Some(a) => {
+                    if b == "!" {
+                        format!("{} || !", asm_answer(&a))
+                    } else {
+                        match dec(&b) {
+                            Some(b) => format!("{} || {}", asm_answer(&a), asm_answer(&b)),
+                            None => "BADREQ".into(),
+                        }
+                    }
+                }
+                None => "BADREQ".into(),
+            }
+        }
         "asm2" => {
             let mut it = rest.trim().splitn(3, ' ');
             match (it.next().and_then(dec), it.next().and_then(|x| dec(x.trim()))) {
